@@ -175,11 +175,24 @@ def function_level(chk, root):
             mfns.REC.calls.clear()
             assert mfns.ga(1) == 1 and mfns.gb(2) == [2, "gb"]
             # read-only: memoized calls are served, others computed, nothing written
-            for source in ("arg", "config"):
+            for source in ("arg", "config", "cluster-config"):
                 kw = dict(memory_cache_mb=budget) if budget else {}
-                st = (FilesystemStorageBackend(path=data, read_only=True, **kw) if source == "arg"
-                      else FilesystemStorageBackend(config={"path": data, "readonly": True}, **kw))
-                m.Environment.set(env_with(st, base=base))
+                if source == "cluster-config":
+                    # the whole cluster comes from configuration dictionaries (StorageBackend.create): first a writable cluster
+                    # on the same path is built and used in this process, then the one declared read-only
+                    from twosigma.memento import Environment, ConfigurationRepository, FunctionCluster
+                    scfg = {"type": "filesystem", "path": data}
+                    if budget:
+                        scfg["memory_cache_mb"] = budget
+                    m.Environment.set(Environment(name="verif", base_dir=base, repos=[ConfigurationRepository(name="r", clusters={
+                        "vc": FunctionCluster(config={"name": "vc", "storage": dict(scfg)})})]))
+                    assert mfns.ga(1) == 1
+                    m.Environment.set(Environment(name="verif", base_dir=base, repos=[ConfigurationRepository(name="r", clusters={
+                        "vc": FunctionCluster(config={"name": "vc", "storage": dict(scfg, readonly=True)})})]))
+                else:
+                    st = (FilesystemStorageBackend(path=data, read_only=True, **kw) if source == "arg"
+                          else FilesystemStorageBackend(config={"path": data, "readonly": True}, **kw))
+                    m.Environment.set(env_with(st, base=base))
                 before = fsaudit.snapshot([data])
                 mfns.REC.calls.clear()
                 with fsaudit.Recorder([data]) as rec:
@@ -218,6 +231,22 @@ def function_level(chk, root):
                 chk.case(["null-runner", budget, damaged], sample=dict(kind="null runner", damaged=damaged, outs=str(outs)))
                 if mfns.REC.calls:
                     fails.append(dict(clause="null-runner-never-executes", damaged_store=damaged, calls=list(mfns.REC.calls), outs=str(outs)))
+                if damaged:
+                    # a store whose data objects are missing, opened read-only: calls recompute, still nothing is modified
+                    m.Environment.set(env_with(FilesystemStorageBackend(path=data, read_only=True, **kw), base=base))
+                    before = fsaudit.snapshot([data])
+                    mfns.REC.calls.clear()
+                    with fsaudit.Recorder([data]) as rec:
+                        try:
+                            outs = [mfns.ga(1), mfns.gb(2), mfns.ga(1)]
+                        except Exception as e:
+                            outs = ["raised " + type(e).__name__]
+                    chk.case(["damaged-read-only", budget], sample=dict(kind="read-only on a store with missing data objects", outs=str(outs)))
+                    if outs != [1, [2, "gb"], 1]:
+                        fails.append(dict(clause="read-only-answers", level="function", damaged_store=True, outs=str(outs), budget=budget))
+                    if rec.mutations or fsaudit.snapshot([data]) != before:
+                        fails.append(dict(clause="no-mutation-under-storage-paths", level="function", damaged_store=True,
+                                          events=rec.mutations[:4], budget=budget))
         # null storage
         ns = NullStorageBackend()
         w = sw.World(dict(kind="mem"))
